@@ -51,6 +51,7 @@ def run(ctx):
     ctx.rule("R04.1", "compare-and-set WAITING->RUNNING and finished guard in in-memory, RDB and journal "
              "(finite-domain exploration over TrialState x TrialState)")
     _cas.cas_rule(ctx, "R04.1")
+    _cas.cas_atomic_rule(ctx, "R04.1")
 
     # ------------------------------------------------------------ R04.2 claim result checked
     ctx.rule("R04.2", "every caller that requests RUNNING branches on the returned boolean before the id escapes")
@@ -470,3 +471,9 @@ def run(ctx):
     g = CFG(f.node, name=f.qualname)
     adds = [n for n in g.stmt_nodes() for c in n.calls() if self_attr(c.func) == "add_trial"]
     ctx.check(bool(adds), "R04.5", f.short, "enqueue-adds-trial", message="enqueue_trial no longer calls add_trial", how="add_trial call")
+
+    # ------------------------------------------------------------ R04.6 a retry is a queue entry too
+    ctx.rule("R04.6", "RetryFailedTrialCallback re-queues the failed trial with its system attrs (fixed_params included), params, "
+             "distributions and user attrs unchanged; only the retry bookkeeping keys are written")
+    from rules import _retry
+    _retry.retry_keeps_queue_entry(ctx, "R04.6")
